@@ -224,8 +224,8 @@ std::vector<std::string> diff(const Snap& a, const Snap& b, size_t maxn) {
     return out;
 }
 
-static SParam normParam(const SParam& p) {
-    SParam q = p; q.name = upper(q.name);
+static SParam normParam(const SParam& p, bool upperName) {
+    SParam q = p; if (upperName) q.name = upper(q.name);
     for (size_t i = 0; i < q.sv.size(); ++i) rtrim(q.sv[i]);
     return q;
 }
@@ -246,19 +246,19 @@ std::vector<std::string> contentDiff(const Snap& a, const Snap& b, const Content
     if (A.size() != B.size()) { std::ostringstream o; o << "groups.count(named):" << A.size() << "!=" << B.size(); DPUSH(o.str()); }
     for (size_t i = 0; i < A.size(); ++i) {
         const SGroup* m = 0;
-        for (size_t j = 0; j < B.size(); ++j) if (upper(B[j]->name) == upper(A[i]->name)) { m = B[j]; break; }
+        for (size_t j = 0; j < B.size(); ++j) if (B[j]->name == upper(A[i]->name)) { m = B[j]; break; }   // names are stored upper-cased: the loaded name must be exactly that
         std::string gp = "group(" + esc(A[i]->name) + ")";
         if (!m) { DPUSH(gp + ":missing"); continue; }
         if (A[i]->desc != m->desc) DPUSH(gp + ".desc");
         if (A[i]->lock != m->lock) DPUSH(gp + ".lock");
         if (A[i]->params.size() != m->params.size()) { std::ostringstream o; o << gp << ".nparams:" << A[i]->params.size() << "!=" << m->params.size(); DPUSH(o.str()); }
         for (size_t p = 0; p < A[i]->params.size(); ++p) {
-            SParam x = normParam(A[i]->params[p]);
+            SParam x = normParam(A[i]->params[p], true);
             const SParam* y0 = 0;
-            for (size_t q = 0; q < m->params.size(); ++q) if (upper(m->params[q].name) == x.name) { y0 = &m->params[q]; break; }
+            for (size_t q = 0; q < m->params.size(); ++q) if (m->params[q].name == x.name) { y0 = &m->params[q]; break; }
             std::string pp = gp + ".param(" + esc(x.name) + ")";
             if (!y0) { DPUSH(pp + ":missing"); continue; }
-            SParam y = normParam(*y0);
+            SParam y = normParam(*y0, false);
             if (opt.ignoreDataStartValue && upper(A[i]->name) == "POINT" && x.name == "DATA_START") { x.iv.clear(); y.iv.clear(); }
             if (x != y) DPUSH(pp + ":" + paramDiffDetail(x, y));
         }
